@@ -10,7 +10,9 @@ from lib import clist, cstr, cbool
 SUPPORTED_SCALAR = {"+", "-", "*", "abs", "==", "!=", "<", "<=", ">", ">=", "and", "or", "is_null", "is_bad", "coalesce", "if_else",
                     "maximum", "minimum", "fmax", "fmin"}
 SUPPORTED_AGG = {"sum", "mean", "min", "max", "count", "size", "_size"}
-SUPPORTED_WIN = {"cumsum", "cummax", "cummin", "_row_number", "shift"} | SUPPORTED_AGG
+SUPPORTED_WIN = {"cumsum", "cummax", "cummin", "_row_number", "shift",
+                 # added for C27 (Model/Sem.v win_fn): Pandas conventions; see harness/props/C27.py for which backend is compared on which
+                 "cumprod", "cumcount", "_count", "rank", "first", "last", "ffill", "bfill", "median", "nunique", "var"} | SUPPORTED_AGG
 
 
 class Unsupported(Exception):
